@@ -36,7 +36,17 @@ pub enum DKind {
     EncodeDecode { dom: u8, fmt: u8 },
     /// Decode a file that contains `n` Folders whose UniqueIds are all `uid`
     /// (pool index); the result replaces the slot.
-    DecodeDupFile { dom: u8, fmt: u8, n: u8, uid: u8 },
+    DecodeDupFile {
+        dom: u8,
+        fmt: u8,
+        n: u8,
+        uid: u8,
+        /// 0 siblings of one class; 1 several classes, one instance without an id;
+        /// 2 a chain (each instance the child of the previous one); 3 (binary) the
+        /// class has two UniqueId PROP chunks, the earlier one with distinct ids.
+        #[serde(default)]
+        layout: u8,
+    },
     /// Replace the slot by `WeakDom::new(builder tree)`.
     NewDom { dom: u8, tree: NodeSpec },
 }
@@ -686,7 +696,13 @@ impl DomSim {
                     let dom = pick_dom(r);
                     DKind::NewDom { dom, tree: self.gen_builder(r, &model, serial * ID_STRIDE, uid_mode, dom as usize) }
                 }
-                10 => DKind::DecodeDupFile { dom: pick_dom(r), fmt: r.below(2) as u8, n: r.range(2, 4) as u8, uid: r.below(UID_POOL.len() as u64) as u8 },
+                10 => DKind::DecodeDupFile {
+                    dom: pick_dom(r),
+                    fmt: r.below(2) as u8,
+                    n: r.range(2, 4) as u8,
+                    uid: r.below(UID_POOL.len() as u64) as u8,
+                    layout: r.below(4) as u8,
+                },
                 _ => continue,
             };
             let op = DOp { serial, kind };
@@ -1327,21 +1343,44 @@ impl DomSim {
                             returned_ref.push(Ref::none());
                         }
                     }
-                    DKind::DecodeDupFile { dom, fmt, n, uid } => {
+                    DKind::DecodeDupFile { dom, fmt, n, uid, layout } => {
                         let d = *dom as usize;
                         let u = UID_POOL[*uid as usize % UID_POOL.len()];
                         let mut tmp = WeakDom::new(InstanceBuilder::new("DataModel"));
                         let root = tmp.root_ref();
                         let mut made = Vec::new();
+                        let mut roots = Vec::new();
+                        let mut parent = root;
                         for i in 0..*n {
-                            made.push(tmp.insert(root, InstanceBuilder::new("Folder").with_name(format!("dup{}", i))));
+                            let class = if *layout == 1 { ["Folder", "Model", "Part"][i as usize % 3] } else { "Folder" };
+                            let r = tmp.insert(parent, InstanceBuilder::new(class).with_name(format!("dup{}", i)));
+                            if parent == root {
+                                roots.push(r);
+                            }
+                            if *layout == 2 {
+                                parent = r;
+                            }
+                            made.push(r);
+                        }
+                        if *layout == 1 {
+                            roots.push(tmp.insert(root, InstanceBuilder::new("Folder").with_name("no-id")));
                         }
                         // Direct field mutation is the only way to obtain a file with duplicate ids.
                         for r in &made {
                             tmp.get_by_ref_mut(*r).unwrap().properties.insert("UniqueId".into(), Variant::UniqueId(UniqueId::new(u.0, u.1, u.2)));
                         }
                         let mut buf = Vec::new();
-                        let decoded = if *fmt == 0 {
+                        let made = roots;
+                        let decoded = if *fmt == 0 && *layout == 3 {
+                            rbx_binary::Serializer::new()
+                                .compression_type(rbx_binary::CompressionType::None)
+                                .serialize(&mut buf, &tmp, &made)
+                                .map_err(|e| e.to_string())
+                                .and_then(|_| {
+                                    let file = with_second_unique_id_chunk(&buf).unwrap_or(buf.clone());
+                                    rbx_binary::from_reader(file.as_slice()).map_err(|e| e.to_string())
+                                })
+                        } else if *fmt == 0 {
                             rbx_binary::to_writer(&mut buf, &tmp, &made).map_err(|e| e.to_string())
                                 .and_then(|_| rbx_binary::from_reader(buf.as_slice()).map_err(|e| e.to_string()))
                         } else {
@@ -1684,6 +1723,42 @@ impl DomSim {
         }
         ctx.add("instances_at_end", world.model.nodes.len() as u64);
     }
+}
+
+/// A copy of the (uncompressed) file in which the class's `UniqueId` PROP chunk
+/// is preceded by a second one whose ids are pairwise distinct: a layout a
+/// foreign writer may produce and the reader accepts (the later chunk wins).
+fn with_second_unique_id_chunk(file: &[u8]) -> Option<Vec<u8>> {
+    for c in crate::iosim::walk_chunks(file) {
+        if &c.name != b"PROP" || c.compressed {
+            continue;
+        }
+        let p = &file[c.payload..c.end];
+        // type id (u32), name length (u32), name, wire type (u8), values
+        if p.len() < 8 {
+            continue;
+        }
+        let name_len = u32::from_le_bytes(p[4..8].try_into().ok()?) as usize;
+        if p.len() < 8 + name_len + 1 || &p[8..8 + name_len] != b"UniqueId" {
+            continue;
+        }
+        let values = 8 + name_len + 1;
+        let n = (p.len() - values) / 16;
+        if n < 2 {
+            return None;
+        }
+        let mut copy = file[c.start..c.end].to_vec();
+        let base = 16 + values;
+        for j in 0..n {
+            // first byte plane of the interleaved 16-byte values: one byte per instance
+            copy[base + j] ^= (j as u8).wrapping_add(1);
+        }
+        let mut out = file[..c.start].to_vec();
+        out.extend_from_slice(&copy);
+        out.extend_from_slice(&file[c.start..]);
+        return Some(out);
+    }
+    None
 }
 
 /// descendants_of(start) against an independent walk over children():
